@@ -89,7 +89,7 @@ package bytes
 //@   ensures result1 == nil ==> result0 == beq(b, "true")
 
 //@ func (Bytes).ParseUint()
-//@   props C07 C10
+//@   props C07 C10 C02
 //@   nopanic
 //@   ensures result1 != nil ==> !libErr(result1)
 //@   ensures result1 == nil ==> len(b) > 0 && (forall k :: 0 <= k && k < len(b) ==> isDigit(b[k]))
